@@ -340,11 +340,13 @@ class PendingWhile(_PendingLoop[While]):
             while_loop_orelse = self.nsp_global.expr_wraper(self.converted_orelse)
 
         # the main body of the oneliner while loop
+        # (the loop counter gets a reserved name: a plain "_" would shadow the user's "_")
+        while_loop_var = ol_name(OL_WHILE_TMP)
         while_loop_body = ListComp(
             elt=self.nsp_global.expr_wraper(self.converted_body),
             generators=[
                 comprehension(
-                    target=Name(id="_", ctx=Store()),
+                    target=Name(id=while_loop_var, ctx=Store()),
                     iter=Call(
                         func=Attribute(
                             value=Name(id="itertools", ctx=Load()),
@@ -355,7 +357,7 @@ class PendingWhile(_PendingLoop[While]):
                             Lambda(
                                 args=arguments(
                                     posonlyargs=[],
-                                    args=[arg(arg="_")],
+                                    args=[arg(arg=while_loop_var)],
                                     kwonlyargs=[],
                                     kw_defaults=[],
                                     defaults=[],
@@ -1168,20 +1170,26 @@ class PendingClassDef(_PendingCompoundStmt[ClassDef]):
             )
         )
 
+        # reserved names: plain "k"/"v" would shadow a class (or global) named k or v
+        member_key = ol_name(OL_CLASS_MEMBER_KEY)
+        member_value = ol_name(OL_CLASS_MEMBER_VALUE)
         load_class = ListComp(
             elt=Call(
                 func=Name(id="setattr", ctx=Load()),
                 args=[
                     self.nsp.get_load_name(self.node.name),
-                    Name(id="k", ctx=Load()),
-                    Name(id="v", ctx=Load()),
+                    Name(id=member_key, ctx=Load()),
+                    Name(id=member_value, ctx=Load()),
                 ],
                 keywords=[],
             ),
             generators=[
                 comprehension(
                     target=Tuple(
-                        elts=[Name(id="k", ctx=Store()), Name(id="v", ctx=Store())],
+                        elts=[
+                            Name(id=member_key, ctx=Store()),
+                            Name(id=member_value, ctx=Store()),
+                        ],
                         ctx=Store(),
                     ),
                     iter=Call(
